@@ -234,6 +234,9 @@ func (e *Engine) sortOf(t types.Type) string {
 			if _, isIface := u.Underlying().(*types.Interface); isIface {
 				return "Iface"
 			}
+			if b, isBasic := u.Underlying().(*types.Basic); isBasic {
+				return e.sortOf(b) // e.g. reflect.StructTag is a string
+			}
 			return "Int" // opaque handle
 		}
 		if st, ok := u.Underlying().(*types.Struct); ok {
